@@ -39,3 +39,11 @@ Theorem C12_scale_rotate : forall g f r,
     else {| mag := fmul (mag g) f; ang := add_vv (ang g) r |}.
 Proof. exact scale_rotate_spec. Qed.
 Print Assumptions C12_scale_rotate.
+
+(* reflection law at the angle level: total = 2*alpha + (4 full-turn blades) - (t mod 2pi), i.e. the
+   direction 2*alpha - t modulo a full turn, within three boundary tolerances plus rounding *)
+Theorem C12_reflect_law : forall g axis, canonp (rem (ang g)) -> Canon (ang axis) ->
+  Rabs (theta (ang (reflect g axis)) - (2 * theta (ang axis) + 8 * R_ Q - theta (base_angle (ang g))))
+    <= 3 * R_ eps10 + 7 * / 4503599627370496.
+Proof. exact reflect_law. Qed.
+Print Assumptions C12_reflect_law.
